@@ -81,7 +81,11 @@ pub fn any_striped<A: SymGen, C: StrictlyPositive + ArrayLength, const R: usize>
             lin[i] = s;
         }
     }
-    let mut st = StripedSequence::<A, C>::new(m, l).unwrap();
+    // hook H3: `StripedSequence::new(m, l)` returns a `Result` whose discriminant
+    // depends on the symbolic `l`; after `unwrap()` CBMC no longer knows the row
+    // count of the matrix (every later loop bound and allocation turns symbolic).
+    // l <= C*R holds by the assumption above, which is all `new` checks.
+    let mut st = StripedSequence::<A, C>::verif_new_unchecked(m, l);
     st.configure_wrap(wrap);
     (st, lin, l)
 }
